@@ -27,6 +27,7 @@ op   ::= a:<item>             append(item)
        | s:<lo>:<hi>          args[lo:hi], a bound is an int or `_` (left out)
        | t                    str(args)
        | x:<lo>:<hi>          args.extend(args[lo:hi])   (extend by a TexArgs object: own slice)
+       | X                    args.extend(args)          (extend by the list itself)
        | y                    target.extend(other)       (`other`: the args of a second command)
        | o:<op>               the operation <op> with the roles of target and other swapped
                               (`o:a:..` appends to other, `o:y` is other.extend(target))
@@ -145,6 +146,7 @@ def decOp (n : Nat) (w : String) : Option ArgsOp :=
     let hi ← decBound hi
     pure (.slice lo hi)
   | ["t"] => some .str
+  | ["X"] => some .extendSelf
   | ["x", lo, hi] => do
     let lo ← decBound lo
     let hi ← decBound hi
